@@ -213,6 +213,9 @@ impl<B> Call<WithoutBody, B> {
 
         self.state.skip_method_body_check = true;
 
+        // Without content-length or transfer-encoding headers, the body is chunked.
+        self.state.writer = BodyWriter::new_chunked();
+
         Call {
             request: self.request,
             analyzed: self.analyzed,
